@@ -452,6 +452,23 @@ def spellings3(rng, n):
     return ops
 
 
+def omitted_vs_x_all_base3(rng):
+    """every base vector of both versions at the temporal and the environmental decoder: nothing optional written,
+    every optional metric written as X, and one random optional metric alone written as X, in random positions --
+    the three spellings must give one object and one score vector (C09: writing X = omitting)"""
+    ops = []
+    for ver in vec.VERS3:
+        for bt in vec.all_base3_tokens():
+            for L in (1, 2):
+                opt = [m for m in vec.V3 if 1 <= m[1] <= L]
+                ops.append(_op("D3", L, vec.v3vec(ver, bt)))
+                ops.append(_op("D3", L, vec.v3vec(ver, bt + ["%s:X" % m[0] for m in opt])))
+                one = list(bt)
+                one.insert(rng.below(len(one) + 1), "%s:X" % rng.choice(opt)[0])
+                ops.append(_op("D3", L, vec.v3vec(ver, one)))
+    return ops
+
+
 def x_vs_omitted3(rng, n):
     """pairs: a vector with explicit X for every optional metric of the level and the same vector
     with a random subset of those X tokens omitted -- both must give identical objects (C09)"""
